@@ -176,38 +176,38 @@ var (
 )
 
 var shapes = []shape{
-	{"file-exe", "file", func(v string) []sfile { return []sfile{cand(0o755)(v)} }, true, true, true, "exe"},
-	{"file-nonexec", "file", func(v string) []sfile { return []sfile{cand(0o644)(v)} }, false, true, true, ""},
-	{"dir-exe", "dir", func(v string) []sfile { return []sfile{cand(0o755)(v)} }, true, true, true, "exe"},
-	{"dir-nonexec", "dir", func(v string) []sfile { return []sfile{cand(0o644)(v)} }, true, true, true, "nonexec"},
-	{"dir-exe+before", "dir", func(v string) []sfile { return []sfile{before, cand(0o755)(v)} }, true, true, false, "exe"},
-	{"dir-exe+after", "dir", func(v string) []sfile { return []sfile{cand(0o755)(v), after} }, true, true, true, "exe"},
-	{"dir-nonexec+before", "dir", func(v string) []sfile { return []sfile{before, cand(0o644)(v)} }, true, true, false, "nonexec"},
-	{"dir-nonexec+after", "dir", func(v string) []sfile { return []sfile{cand(0o644)(v), after} }, true, true, true, "nonexec"},
-	{"dir-exe+before+after", "dir", func(v string) []sfile { return []sfile{before, cand(0o755)(v), after} }, true, true, true, "exe"},
-	{"dir-nonexec+before+after", "dir", func(v string) []sfile { return []sfile{before, cand(0o644)(v), after} }, true, true, false, "nonexec"},
+	{"file-exe", "file", func(v string) []sfile { return []sfile{cand(0o755)(v)} }, true, true, true, "exe", false},
+	{"file-nonexec", "file", func(v string) []sfile { return []sfile{cand(0o644)(v)} }, false, true, true, "", false},
+	{"dir-exe", "dir", func(v string) []sfile { return []sfile{cand(0o755)(v)} }, true, true, true, "exe", false},
+	{"dir-nonexec", "dir", func(v string) []sfile { return []sfile{cand(0o644)(v)} }, true, true, true, "nonexec", false},
+	{"dir-exe+before", "dir", func(v string) []sfile { return []sfile{before, cand(0o755)(v)} }, true, true, false, "exe", false},
+	{"dir-exe+after", "dir", func(v string) []sfile { return []sfile{cand(0o755)(v), after} }, true, true, true, "exe", false},
+	{"dir-nonexec+before", "dir", func(v string) []sfile { return []sfile{before, cand(0o644)(v)} }, true, true, false, "nonexec", false},
+	{"dir-nonexec+after", "dir", func(v string) []sfile { return []sfile{cand(0o644)(v), after} }, true, true, true, "nonexec", false},
+	{"dir-exe+before+after", "dir", func(v string) []sfile { return []sfile{before, cand(0o755)(v), after} }, true, true, true, "exe", false},
+	{"dir-nonexec+before+after", "dir", func(v string) []sfile { return []sfile{before, cand(0o644)(v), after} }, true, true, false, "nonexec", false},
 	{"dir-exe+nonexec-other-name", "dir", func(v string) []sfile {
 		return []sfile{cand(0o755)(v), {"notation-zzz", 0o644, stub("zzz", v, false)}}
-	}, true, true, false, "exe"},
+	}, true, true, false, "exe", false},
 	{"dir-two-exe", "dir", func(v string) []sfile {
 		return []sfile{{"notation-bar", 0o755, stub("bar", v, false)}, cand(0o755)(v)}
-	}, false, true, true, ""},
+	}, false, true, true, "", false},
 	{"dir-two-nonexec", "dir", func(v string) []sfile {
 		return []sfile{{"notation-bar", 0o644, stub("bar", v, false)}, cand(0o644)(v)}
-	}, false, true, false, ""},
+	}, false, true, false, "", false},
 	{"dir-metadata-other-name", "dir", func(v string) []sfile {
 		return []sfile{{exeName, 0o755, stub("bar", v, false)}}
-	}, true, false, true, ""},
+	}, true, false, true, "", false},
 	{"file-metadata-missing-url", "file", func(v string) []sfile {
 		return []sfile{{exeName, 0o755, stub(pluginName, v, true)}}
-	}, true, false, true, ""},
-	{"path-missing", "missing", func(v string) []sfile { return nil }, false, true, true, ""},
+	}, true, false, true, "", false},
+	{"path-missing", "missing", func(v string) []sfile { return nil }, false, true, true, "", false},
 	{"file-not-notation-name", "file", func(v string) []sfile {
 		return []sfile{{"foo-plugin", 0o755, stub(pluginName, v, false)}}
-	}, false, true, false, ""},
+	}, false, true, false, "", false},
 	{"dir-no-notation-name", "dir", func(v string) []sfile {
 		return []sfile{{"foo-plugin", 0o755, stub(pluginName, v, false)}}
-	}, false, true, false, ""},
+	}, false, true, false, "", false},
 }
 
 // Sub-directory shapes: candidate {executable, non-executable} x extra files
